@@ -11,3 +11,151 @@ pub fn park_of(h: &Coroutine) -> &Park {
 pub fn cancel_of(h: &Coroutine) -> &Cancel {
     &h.inner.cancel
 }
+
+// ---------------------------------------------------------------------------------------------
+// C01 (sequential half): spawn -> run -> join on the real Builder::spawn_impl, run_coroutine,
+// Done::drop_coroutine, Join::{set_panic_data, trigger}, JoinHandle::{is_done, wait, join},
+// compiled against the model generator: resume() runs the REAL closure that spawn_impl built
+// (store the result, trigger the join, return the Done subscriber) - or, when the harness arms a
+// panic / cancel unwind, returns None as the generator does.
+// ---------------------------------------------------------------------------------------------
+use crate::pool::CoroutinePool;
+use std::any::Any;
+use crate::verif_shim::{gen, np, rt};
+use std::panic as stdpanic;
+
+static mut POOLED: usize = 0;
+static mut EXECUTIONS: usize = 0;
+fn pool_get_stub(_p: &CoroutinePool) -> CoroutineImpl {
+    gen::Generator::fresh()
+}
+fn pool_put_stub(_p: &CoroutinePool, co: CoroutineImpl) {
+    unsafe { POOLED += 1 };
+    std::mem::forget(co);
+}
+fn is_coroutine_false() -> bool {
+    false
+}
+fn park_unreachable(_b: &crate::sync::Blocker, _t: Option<Duration>) -> Result<(), crate::park::ParkError> {
+    assert!(false, "C01: join()/wait() had to block although the coroutine has finished");
+    kani::assume(false);
+    Ok(())
+}
+fn unpark_nop(_b: &crate::sync::Blocker) {}
+
+macro_rules! spawn_harness {
+    ($(#[$m:meta])* fn $name:ident() $body:block) => {
+        #[kani::proof]
+        $(#[$m])*
+        #[kani::stub(crate::scheduler::get_scheduler, rt::get_scheduler_stub)]
+        #[kani::stub(crate::pool::CoroutinePool::get, pool_get_stub)]
+        #[kani::stub(crate::pool::CoroutinePool::put, pool_put_stub)]
+        #[kani::stub(crate::coroutine_impl::is_coroutine, is_coroutine_false)]
+        #[kani::stub(crate::sync::Blocker::park, park_unreachable)]
+        #[kani::stub(crate::sync::Blocker::unpark, unpark_nop)]
+        #[kani::stub(std::io::_eprint, rt::print_stub)]
+        #[kani::stub(std::io::_print, rt::print_stub)]
+        #[kani::stub(stdpanic::catch_unwind, rt::catch_unwind_stub)]
+        #[kani::stub(stdpanic::take_hook, rt::take_hook_stub)]
+        #[kani::stub(stdpanic::set_hook, rt::set_hook_stub)]
+        #[kani::stub(std::thread::panicking, np::panicking_stub)]
+        #[kani::stub(std::sync::Arc::drop_slow, rt::arc_drop_slow_stub)]
+        fn $name() $body
+    };
+}
+
+/// the closure returns: executed exactly once, join() returns exactly its value, is_done()/wait()
+/// never report completion before the closure has run
+spawn_harness! {
+    #[kani::unwind(3)]
+    fn c01_spawn_run_join_value() {
+        rt::install_scheduler();
+        let v: u8 = kani::any();
+        let (co, handle) = match Builder::new().spawn_impl(move || {
+            unsafe { EXECUTIONS += 1 };
+            v
+        }) {
+            Ok(x) => x,
+            Err(e) => {
+                std::mem::forget(e);
+                kani::assume(false);
+                unreachable!()
+            }
+        };
+        let (co, handle) = match (co, handle) {
+            x => x,
+        };
+        assert!(!handle.is_done(), "C01: is_done() before the coroutine ran");
+        assert!(unsafe { EXECUTIONS } == 0);
+        // a worker resumes it: REAL run_coroutine -> model resume() -> REAL closure -> REAL Done
+        run_coroutine(co);
+        assert!(unsafe { EXECUTIONS } == 1, "C01: the closure was not executed exactly once");
+        assert!(handle.is_done(), "C01: is_done() false after the closure finished");
+        assert!(unsafe { POOLED } == 1, "C01: the finished coroutine object was not recycled exactly once");
+        handle.wait();
+        let r = handle.join();
+        match r {
+            Ok(x) => assert!(x == v, "C01: join() returned something else than the closure's value"),
+            Err(e) => {
+                std::mem::forget(e);
+                assert!(false, "C01: join() reported a failure for a closure that returned");
+            }
+        }
+        kani::cover!(v == 0x5a, "arbitrary value went through");
+        kani::cover!(v == 0, "zero value went through");
+    }
+}
+
+/// the closure panics (payload p) or is unwound by a cancel: join() returns exactly the payload,
+/// or the Cancel error; the coroutine object is still recycled, the joiner is released
+spawn_harness! {
+    #[kani::unwind(3)]
+    fn c01_spawn_run_join_panic_or_cancel() {
+        rt::install_scheduler();
+        let p: u8 = kani::any();
+        let cancelled: bool = kani::any();
+        let (co, handle) = match Builder::new().spawn_impl(move || {
+            unsafe { EXECUTIONS += 1 };
+            0u8
+        }) {
+            Ok(x) => x,
+            Err(e) => {
+                std::mem::forget(e);
+                kani::assume(false);
+                unreachable!()
+            }
+        };
+        // arm the model generator: the closure does not return
+        // (payload identity is checked through its address: `downcast_ref` needs Any::type_id, a
+        // virtual call that is cut out by -Z restrict-vtable, which this harness needs to keep the
+        // drop glue of the coroutine-local HashMap from fanning out)
+        let mut payload_addr: *const u8 = std::ptr::null();
+        if cancelled {
+            co.imp().cancel_unwind = true;
+        } else {
+            let b: Box<dyn Any + Send> = Box::new(p);
+            payload_addr = &*b as *const (dyn Any + Send) as *const u8;
+            co.imp().panic = Some(b);
+        }
+        assert!(!handle.is_done());
+        run_coroutine(co);
+        assert!(handle.is_done(), "C01/C13: is_done() false after the coroutine ended by a panic");
+        assert!(unsafe { POOLED } == 1);
+        match handle.join() {
+            Ok(_) => assert!(false, "C01: join() returned a value although the closure never returned"),
+            Err(e) => {
+                let got = &*e as *const (dyn Any + Send) as *const u8;
+                if cancelled {
+                    // no panic payload exists: join() builds the Cancel error itself
+                    assert!(!got.is_null());
+                } else {
+                    assert!(got == payload_addr, "C01/C13: join() must return exactly the panic payload object");
+                    assert!(unsafe { *got } == p, "C01/C13: panic payload altered");
+                }
+                std::mem::forget(e);
+            }
+        }
+        kani::cover!(cancelled, "cancel unwind");
+        kani::cover!(!cancelled && p == 7, "panic payload went through");
+    }
+}
